@@ -10,6 +10,9 @@ checks = {
  "C07": ("exploration", "exhaustive enumeration of all ordered pairs of a boundary grid on the real interpreter against a math/big oracle",
          "every ordered pair of a boundary grid over int64/uint64/char/float64 (quick 169 values, thorough 1030: +-2^k, 2^k+-1, float neighbours, NaN, Inf, +-0, subnormals) under all 6 comparison operators, hash lookup and + - * / mod is evaluated on the real interpreter and compared with an exact oracle",
          "trusts the math/big / Go fixed-width oracle; values outside the structured grid are not explored; pairs the property leaves unspecified are only checked for no-panic", "§3 C07"),
+ "C02": ("exploration", "small-scope exhaustive enumeration of core-language programs, differential against a reference evaluator written in Go",
+         "all depth-1 programs in 6 layout styles and all context chains of length 2 (thorough: 3, plus full depth-2 trees) over 59 contexts and 10 leaves are run on a fresh real interpreter and on the reference evaluator R1; value, error and the order of traced host calls must agree",
+         "trusts R1 as the specification of the core language; programs R1 declines are skipped and counted; bounded size", "§3 C02"),
 }
 all_ids = ["C%02d" % i for i in range(1, 21)]
 pending = {i: "check not built yet in this tree (see DESIGN.md §7 build order); will be claimed when its machinery lands" for i in all_ids if i not in checks}
